@@ -142,3 +142,16 @@ pub fn exe(toks: &[&str]) -> Option<String> {
     std::panic::set_hook(prev);
     Some(match r { Ok(s) => s, Err(_) => format!("panic msg={}", hexs(&msg.lock().unwrap())) })
 }
+
+/// `exefile <in> <out> <payload-file> <name>`: add a section to a real executable on disk (ELF)
+pub fn exefile(toks: &[&str]) -> Option<String> {
+    let mut t = Toks::new(toks);
+    let inp = t.string()?; let out = t.string()?; let payload = t.string()?; let name = t.string()?;
+    let bytes = std::fs::read(inp).ok()?; let pl = std::fs::read(payload).ok()?;
+    let r = std::panic::catch_unwind(|| crate::exe_utils::add_section_to_elf(bytes, &name, pl));
+    Some(match r {
+        Ok(Ok(b)) => { std::fs::write(&out, &b).ok()?; format!("ok:{}", b.len()) }
+        Ok(Err(e)) => format!("err:{}", hexs(&e)),
+        Err(_) => "panic".to_string(),
+    })
+}
